@@ -197,6 +197,16 @@ macro_rules! reenter_impl {
                 self.value += 1;
                 server.at(path.to_string(), Leaf(2)).await.map_err(|e| zbus::fdo::Error::Failed(e.to_string()))
             }
+            /// the common `Close()` pattern: a handler that removes its own object
+            async fn close(&mut self, #[zbus(object_server)] server: &ObjectServer, #[zbus(header)] hdr: zbus::message::Header<'_>) -> zbus::fdo::Result<bool> {
+                self.value += 1;
+                let path = hdr.path().expect("path").to_owned();
+                server.remove::<Self, _>(path).await.map_err(|e| zbus::fdo::Error::Failed(e.to_string()))
+            }
+            async fn close_ro(&self, #[zbus(object_server)] server: &ObjectServer, #[zbus(header)] hdr: zbus::message::Header<'_>) -> zbus::fdo::Result<bool> {
+                let path = hdr.path().expect("path").to_owned();
+                server.remove::<Self, _>(path).await.map_err(|e| zbus::fdo::Error::Failed(e.to_string()))
+            }
             #[zbus(signal)]
             async fn poked(emitter: &SignalEmitter<'_>, x: u32) -> zbus::Result<()>;
             #[zbus(property)]
@@ -262,8 +272,11 @@ pub fn c30_reenter_case(src: &mut Src, obs: &mut Obs) -> CaseResult {
     let mut calls = vec![];
     let mut kinds = vec![];
     for i in 0..n {
-        let kind = src.below(7);
+        // (a handler that removes its own object comes last in the burst when it comes at all)
+        let kind = if i + 1 == n && src.chance(60) { 7 + src.below(2) } else { src.below(7) };
         let m = match kind {
+            7 => peer.call("/c30", Some(iface), "Close", vec![]),
+            8 => peer.call("/c30", Some(iface), "CloseRo", vec![]),
             0 => peer.call("/c30", Some(iface), "Add", vec![RVal::S(format!("/c30/n{i}"))]),
             1 => peer.call("/c30", Some(iface), "Del", vec![RVal::S(format!("/c30/n{}", src.below(n)))]),
             2 => peer.call("/c30", Some(iface), "Emit", vec![]),
@@ -272,7 +285,7 @@ pub fn c30_reenter_case(src: &mut Src, obs: &mut Obs) -> CaseResult {
             5 => peer.call("/c30", Some("org.freedesktop.DBus.Properties"), "Set", vec![RVal::S(iface.into()), RVal::S("Knob".into()), RVal::V(Box::new((vcore::refmodel::sig::RSig::U, RVal::U(10 + i as u32))))]),
             _ => peer.call("/c30", Some("org.freedesktop.DBus.Properties"), "GetAll", vec![RVal::S(iface.into())]),
         };
-        kinds.push(["Add", "Del", "Emit", "AddMut", "Get(Probe)", "Set(Knob)", "GetAll"][kind]);
+        kinds.push(["Add", "Del", "Emit", "AddMut", "Get(Probe)", "Set(Knob)", "GetAll", "Close", "CloseRo"][kind]);
         peer.send(&m);
         calls.push(m);
     }
@@ -289,7 +302,9 @@ pub fn c30_reenter_case(src: &mut Src, obs: &mut Obs) -> CaseResult {
     }
     for (c, k) in calls.iter().zip(&kinds) {
         let r = peer.out.iter().find(|r| r.get(msg::F_REPLY_SERIAL) == Some(&RVal::U(c.serial))).unwrap();
-        if r.mtype == msg::T_ERROR && !(*k == "Del") {
+        // (once the object removes itself, calls handled after that are answered with an error)
+        let closes = kinds.iter().any(|k| k.starts_with("Close"));
+        if r.mtype == msg::T_ERROR && !(*k == "Del") && !closes {
             return Err(Failure::new(format!("{k} failed: {r:?}; {}", describe())));
         }
     }
